@@ -193,6 +193,21 @@ def run_unit(unit, repo='/repo', tier='quick', seed=0):
     res['assembled'] = path
     res['trusted_base'] = scan_trusted(text)
     ranges = fn_ranges(text)
+    # extracted functions: exact ranges from the assembler (contracts may contain braces, which defeats the text scan);
+    # qualify with the enclosing impl/trait found by the scan
+    for e in extracted:
+        if e['kind'] == 'fn':
+            l0, l1 = e['out_lines']
+            segs = e['item'].split(' :: ')
+            nm = re.match(r'fn (\w+)', segs[-1]).group(1)
+            q = ''
+            if len(segs) > 1:
+                h = extract.norm(segs[-2])
+                h = re.sub(r'^(impl|trait)(<[^>]*>)? ?', '', h)
+                h = re.sub(r'^.* for ', '', h)
+                q = re.sub(r'<.*$', '', h).split(':')[0].strip() + '::'
+            ranges = [r for r in ranges if not (l0 <= r[1] <= l1)]
+            ranges.append((q + nm, l0, l1))
 
     def fn_at(line):
         best = None
